@@ -708,6 +708,14 @@ class Parser:
         return ("block", stmts, tail)
 
 
+def char_value(tok):
+    """code of a char literal token like '\\n' or ':'"""
+    body = tok[1:-1]
+    if body.startswith("\\"):
+        return {"n": 10, "t": 9, "r": 13, "0": 0, "\\": 92, "'": 39, '"': 34}[body[1]] if body[1] != "x" else int(body[2:], 16)
+    return ord(body)
+
+
 def byte_value(tok):
     body = tok[2:-1]
     if body.startswith("\\"):
@@ -1034,10 +1042,6 @@ EXTERN_FNS = {
     "u32.from_be_bytes": ("TzVerif.Src.be_unsigned", [("bytesN", 4)], ("u32",)),
     "i32.from_be_bytes": ("TzVerif.Src.be_signed", [("bytesN", 4)], ("i32",)),
     "i64.from_be_bytes": ("TzVerif.Src.be_signed", [("bytesN", 8)], ("i64",)),
-    # the footer of version-2/3 files: str::from_utf8, trim, then the (translated) TZ-string parser — the str
-    # plumbing is not in the subset; given the meaning of the model function over the translated parser
-    "parse_footer": ("TzVerif.Model.parseFooter", [("slice", ("u8",)), ("bool",)],
-                     ("result", ("option", ("named", "TransitionRule")), ("named", "TzError"))),
     # the constructor of local time types (its byte loop `TzAsciiStr::new` is not in the subset): the model function
     "LocalTimeType.new": ("TzVerif.Model.LocalTimeType.new", [("i32",), ("bool",), ("option", ("slice", ("u8",)))],
                           ("result", ("named", "LocalTimeType"), ("named", "LocalTimeTypeError"))),
@@ -1110,8 +1114,10 @@ def lean_ty(t):
         return "Bool"
     if k == "char":
         return "Char"
-    if k == "byte":
+    if k == "byte" or k == "charbyte":
         return "Nat"
+    if k == "str":
+        return "List Nat"
     if k == "bytesN":
         return "List Nat"
     if k == "array":
@@ -1699,7 +1705,7 @@ class Fn:
 
     def mcall(self, e, env):
         recv, name, args = e[1], e[2], e[3]
-        if recv[0] == "range":
+        if recv[0] == "range" or (name == "map_err" and recv[0] == "call" and recv[1] == ("path", ["str", "from_utf8"])):
             s, t = "", None
         else:
             s, t = self.ex(recv, env)
@@ -1722,6 +1728,30 @@ class Fn:
             return ("(%s.length : Int)" % s, ("usize",))
         if name == "is_empty":
             return ("%s.isEmpty" % s, ("bool",))
+        if name == "map_err" and recv[0] == "call" and recv[1] == ("path", ["str", "from_utf8"]) and args and args[0] == ("path", ["TzFileError", "from"]):
+            return ("(TzVerif.Src.str_from_utf8_tzfile %s)" % self.ex(recv[2][0], env)[0], ("result", ("str",), ("named", "TzFileError")))
+        if t and t[0] == "str":
+            cv = lambda x: char_value(x[1]) if x[0] == "charlit" else None
+            if name == "len":
+                return ("(%s.length : Int)" % s, ("usize",))
+            if name == "starts_with" and cv(args[0]) is not None:
+                return ("(List.head? %s == some %d)" % (s, cv(args[0])), ("bool",))
+            if name == "ends_with" and cv(args[0]) is not None:
+                return ("(List.getLast? %s == some %d)" % (s, cv(args[0])), ("bool",))
+            if name == "contains" and cv(args[0]) is not None:
+                return ("(List.contains %s %d)" % (s, cv(args[0])), ("bool",))
+            if name == "trim_matches" and args[0][0] == "closure":
+                cl = args[0]
+                env1 = dict(env)
+                env1[cl[1][0][0][1]] = ("charbyte",)
+                return ("(TzVerif.Src.str_trim_matches (fun %s => %s) %s)" % (vname(cl[1][0][0][1]), self.ex(cl[3], env1)[0], s), ("str",))
+            if name == "is_empty":
+                return ("%s.isEmpty" % s, ("bool",))
+            if name == "as_bytes":
+                return (s, ("slice", ("u8",)))
+            raise TransError("str method %s" % name)
+        if t and t[0] == "charbyte" and name == "is_ascii_whitespace":
+            return ("(TzVerif.Src.char_is_ascii_whitespace %s)" % s, ("bool",))
         if name in ("iter", "copied", "into_iter", "as_slice", "into"):
             return (s, t)
         if name == "chunks_exact":
@@ -2854,7 +2884,7 @@ CONFIG = {
             "parse_rule_day": {}, "parse_rule_time": {}, "parse_rule_time_extended": {}, "parse_rule_block": {}, "parse_posix_tz": {},
         }),
         ("src/parse/tz_file.rs", {
-            "parse_header": {}, "read_data_blocks": {}, "DataBlocks_4.parse_time": {}, "DataBlocks_8.parse_time": {},
+            "parse_header": {}, "parse_footer": {}, "read_data_blocks": {}, "DataBlocks_4.parse_time": {}, "DataBlocks_8.parse_time": {},
             "DataBlocks.parse": {}, "parse_tz_file": {},
         }),
     ]
@@ -2873,7 +2903,7 @@ def main():
     fails = "".join("-- NOT TRANSLATED %s\n" % str(v).replace("\n", " ") for v in tr.failed.values())
     text = ("-- GENERATED by tools/rs2lean.py from /repo/src on every run. Do not edit.\n"
             "-- One Lean definition per listed Rust function, translated statement by statement.\n" + fails +
-            "import TzVerif.SrcPrelude\nimport TzVerif.Model.TzFile\n\nset_option linter.unusedVariables false\n\nnamespace TzVerif.Src\nopen TzVerif\n\n" + "\n".join(defs) + "\nend TzVerif.Src\n")
+            "import TzVerif.SrcPrelude\nimport TzVerif.SrcPreludeStr\nimport TzVerif.Model.TzFile\n\nset_option linter.unusedVariables false\n\nnamespace TzVerif.Src\nopen TzVerif\n\n" + "\n".join(defs) + "\nend TzVerif.Src\n")
     path = os.path.join(OUT, "Src.lean")
     old = open(path).read() if os.path.exists(path) else None
     if old != text:
